@@ -1018,6 +1018,203 @@ def check_direct(ctx, hz):
                                       'impl': v if isinstance(v, str) else [repr(x) for x in v[:6]], 'model': [repr(x) for x in mv[:6]]})
 
 
+# =============================================================================================
+# Part E: the radial polynomial as a polynomial (model layer `radialPoly` / `radialDef` / `pint01`)
+#
+# The theorems `radial_table`, `radial_poly_eq_def`, `radial_poly_eval`, `radial_orthonormal`, `radial_product_eval` are about
+# the coefficient lists the q-recursion produces symbolically.  The real recursion is run symbolically as well:
+# `zernike_radial(n, m, x)` with `x = numpy.polynomial.Polynomial([0, 1])` executes the code's own `h1, h2, h3`
+# arithmetic on polynomials and returns the polynomial the code computes (float coefficients).
+# =============================================================================================
+
+def poly_pairs():
+    return [(n, m) for n in range(NMAX + 1) for m in range(n + 1) if (n - m) % 2 == 0]
+
+
+def dense_def(n, m):
+    """coefficients of r^0 … r^n of R_n^|m| from the factorial definition (exact integers)"""
+    v = [0] * (n + 1)
+    for e, c in def_coeffs(n, abs(m)):
+        v[e] = c
+    return v
+
+
+def run_poly(hz, case):
+    """symbolic run of the real recursion: one zernike_radial(n, m, x, cache) per request, in order, against one cache or
+    none.  Returns (bad, coefficient vectors observed)."""
+    from numpy.polynomial import Polynomial
+    x = Polynomial([0.0, 1.0])
+    cache = {} if case['cache'] else None
+    bad, obs = [], []
+    for qi, (n, m) in enumerate(case['reqs']):
+        try:
+            with warnings.catch_warnings():
+                warnings.simplefilter('ignore')
+                pz = hz.zernike_radial(n, m, x, cache)
+            co = np.array(pz.coef, dtype=float) if isinstance(pz, Polynomial) else np.atleast_1d(np.array(pz, dtype=float))
+        except Exception as e:      # noqa
+            co = 'raises-' + type(e).__name__
+        obs.append(co)
+        ref = np.array(dense_def(n, m), dtype=float)
+        tag = 'zernike_radial(%d,%d,x%s) as a polynomial in x' % (n, m, ',cache' if case['cache'] else '')
+        if isinstance(co, str):
+            bad.append(('radial-polynomial raises', '%s: %s' % (tag, co), qi)); continue
+        if x.coef.tolist() != [0.0, 1.0]:
+            bad.append(('radial-polynomial input-mutated', '%s changed its argument' % tag, qi)); continue
+        k = max(len(co), len(ref))
+        a = np.zeros(k); a[:len(co)] = co
+        b = np.zeros(k); b[:len(ref)] = ref
+        err = np.abs(a - b)
+        if np.isnan(a).any() or (err > TOL * max(1.0, float(np.max(np.abs(b))))).any():
+            j = int(np.nanargmax(np.where(np.isnan(a), np.inf, err)))
+            bad.append(('radial-polynomial coefficient', '%s: coefficient of x^%d is %.15g, the definition gives %.15g' % (tag, j, a[j], b[j]), qi))
+    return bad, obs
+
+
+def gl_nodes(k):
+    t, w = np.polynomial.legendre.leggauss(k)
+    return (t + 1.0) / 2.0, w / 2.0
+
+
+def run_ortho(hz, case):
+    """∫₀¹ R_n^m R_n'^m r dr by Gauss-Legendre quadrature (exact for the degree) of the real zernike_radial values.
+    Returns (bad, Gram matrix over case['orders'])."""
+    xs, ws = gl_nodes(case['nodes'])
+    m = case['m']
+    cache = {} if case['cache'] else None
+    rows = []
+    bad = []
+    for n in case['orders']:
+        try:
+            with warnings.catch_warnings():
+                warnings.simplefilter('ignore')
+                v = np.array(np.broadcast_to(np.asarray(hz.zernike_radial(n, m, xs, cache), dtype=float), xs.shape)).copy()
+        except Exception as e:      # noqa
+            bad.append(('radial-orthonormality raises', 'zernike_radial(%d,%d,nodes): %s' % (n, m, type(e).__name__), [n, n]))
+            v = np.full(xs.shape, np.nan)
+        rows.append(v)
+    R = np.array(rows)
+    G = (R * (ws * xs)) @ R.T
+    for a, n in enumerate(case['orders']):
+        for b, n2 in enumerate(case['orders']):
+            want = 1.0 / (2 * (n + 1)) if n == n2 else 0.0
+            if not (abs(G[a, b] - want) <= TOL):
+                if not any(k == 'radial-orthonormality' for k, _, _ in bad):
+                    bad.append(('radial-orthonormality', 'integral over [0,1] of R_%d^%d R_%d^%d r dr = %.12g by %d-point Gauss-Legendre '
+                                'quadrature of zernike_radial, expected %.12g' % (n, m, n2, m, G[a, b], case['nodes'], want), [n, n2]))
+    return bad, G
+
+
+def check_polynomials(ctx, hz):
+    rng = ctx.rng
+    pairs = poly_pairs()
+    # -- the range of the tables
+    out = ctx.model(['C13 pairs %d' % NMAX])
+    ctx.traces_validated += 1
+    if out[0] != 'ok ' + ','.join('%d:%d' % nm for nm in pairs):
+        ctx.disagree('C13 pairs', {'nmax': NMAX, 'model': out[0][:200], 'harness': len(pairs)})
+    # -- coefficient lists: recursion (model) vs recursion (code, run symbolically) vs definition
+    cases = [{'what': 'poly', 'cache': False, 'reqs': [list(nm) for nm in pairs]},
+             {'what': 'poly', 'cache': True, 'reqs': [list(nm) for nm in pairs]}]
+    for _ in range(ctx.scale(3, 40)):
+        k = int(rng.integers(5, 60))
+        reqs = []
+        for i in rng.integers(0, len(pairs), size=k):
+            n, m = pairs[int(i)]
+            reqs.append([n, -m if rng.random() < 0.5 else m])
+        if rng.random() < 0.5:
+            reqs += [list(q) for q in reqs[:3]]
+        cases.append({'what': 'poly', 'cache': bool(rng.random() < 0.7), 'reqs': reqs})
+    lines, slots = [], []
+    for nm in pairs:
+        lines.append('C13 defpoly %d %d' % nm)
+    for case in cases:
+        bad, obs = run_poly(hz, case)
+        seen = set()
+        for key, what, qi in bad:
+            if key in seen:
+                continue
+            seen.add(key)
+            small = dict(case, reqs=case['reqs'][:qi + 1])
+            cand = dict(case, reqs=[case['reqs'][qi]])
+            if any(k == key for k, _, _ in run_poly(hz, cand)[0]):
+                small = cand
+            ctx.violation(key, what, small)
+        ctx.count('poly-histories:cache=%s' % case['cache']); ctx.count('poly-requests', len(case['reqs']))
+        for (n, m), co in zip(case['reqs'], obs):
+            ctx.case(None, ('poly', n, abs(m), case['cache']))
+            slots.append((len(lines), case, n, m, co))
+            lines.append('C13 poly %d %d' % (n, m))
+    out = ctx.model(lines)
+    for i, (n, m) in enumerate(pairs):
+        ctx.traces_validated += 1
+        if not out[i].startswith('ok ') or [int(q) if q.denominator == 1 else q for q in parse_rat_list(out[i][3:])] != dense_def(n, m):
+            ctx.disagree('C13 defpoly', {'n': n, 'm': m, 'model': out[i][:200], 'definition': dense_def(n, m)})
+    for idx, case, n, m, co in slots:
+        if not out[idx].startswith('ok '):
+            raise MachineryError('model answered %r to %r' % (out[idx][:60], lines[idx]))
+        mv = np.array([to_float(q) for q in parse_rat_list(out[idx][3:])])
+        ctx.traces_validated += 1
+        k = max(len(mv), 0 if isinstance(co, str) else len(co))
+        if not isinstance(co, str):
+            a = np.zeros(k); a[:len(co)] = co
+            b = np.zeros(k); b[:len(mv)] = mv
+        if isinstance(co, str) or np.isnan(a).any() or (np.abs(a - b) > TOL * max(1.0, float(np.max(np.abs(b))))).any():
+            ctx.disagree('C13 poly', {'n': n, 'm': m, 'cache': case['cache'], 'history': len(case['reqs']),
+                                      'impl': co if isinstance(co, str) else [repr(v) for v in co], 'model': out[idx][3:200]})
+    # -- evaluation of the coefficient list = the pointwise recursion = the code at that point
+    lines, slots = [], []
+    for n, m in pairs:
+        rs = [Fraction(0), Fraction(1), Fraction(1, 2 ** 20)] + [Fraction(int(rng.integers(1, 320)), 256) for _ in range(ctx.scale(2, 6))]
+        with warnings.catch_warnings():
+            warnings.simplefilter('ignore')
+            try:
+                v = np.array(np.broadcast_to(np.asarray(hz.zernike_radial(n, m, np.array([float(r) for r in rs])), dtype=float), (len(rs),)))
+            except Exception as e:      # noqa
+                v = None
+        for j, r in enumerate(rs):
+            slots.append((len(lines), n, m, r, None if v is None else float(v[j])))
+            lines.append('C13 polyeval %d %d %s' % (n, m, r))
+            lines.append('C13 radial %d %d %s' % (n, m, r))
+        ctx.count('polyeval-points', len(rs))
+    out = ctx.model(lines)
+    for idx, n, m, r, v in slots:
+        if not (out[idx].startswith('ok ') and out[idx + 1].startswith('ok ')):
+            raise MachineryError('model answered %r / %r to %r' % (out[idx][:60], out[idx + 1][:60], lines[idx]))
+        ctx.traces_validated += 2
+        if out[idx] != out[idx + 1]:
+            ctx.disagree('C13 polyeval', {'n': n, 'm': m, 'r': str(r), 'peval radialPoly': out[idx], 'radialEval': out[idx + 1]})
+        mv = to_float(Fraction(out[idx][3:]))
+        if v is None or np.isnan(v) or abs(v - mv) > TOL * max(1.0, abs(mv)):
+            ctx.disagree('C13 polyeval', {'n': n, 'm': m, 'r': str(r), 'impl': repr(v), 'model': out[idx][3:]})
+    # -- radial orthonormality: exact integral of the model's product polynomial vs quadrature of the code's values
+    lines, slots = [], []
+    for m in range(NMAX + 1):
+        orders = [n for n in range(m, NMAX + 1, 2)]
+        perm = [orders[int(i)] for i in rng.permutation(len(orders))]
+        case = {'what': 'ortho', 'm': m, 'orders': perm, 'cache': bool(rng.random() < 0.5), 'nodes': 32}
+        bad, G = run_ortho(hz, case)
+        for key, what, nn in bad:
+            small = dict(case, orders=sorted(set(nn)))
+            if not any(k == key for k, _, _ in run_ortho(hz, small)[0]):
+                small = case
+            ctx.violation(key, what, small)
+        ctx.count('ortho-blocks'); ctx.count('ortho-integrals', len(perm) ** 2)
+        for a, n in enumerate(perm):
+            for b, n2 in enumerate(perm):
+                ctx.case(None, ('ortho', m, n, n2))
+                slots.append((len(lines), m, n, n2, float(G[a, b])))
+                lines.append('C13 ortho %d %d %d' % (n, n2, m))
+    out = ctx.model(lines)
+    for idx, m, n, n2, g in slots:
+        if not out[idx].startswith('ok '):
+            raise MachineryError('model answered %r to %r' % (out[idx][:60], lines[idx]))
+        q = Fraction(out[idx][3:])
+        ctx.traces_validated += 1
+        if not (abs(g - to_float(q)) <= TOL):
+            ctx.disagree('C13 ortho', {'n': n, "n'": n2, 'm': m, 'impl (32-point Gauss-Legendre of zernike_radial)': repr(g), 'model': str(q)})
+
+
 # ---- spellings
 
 def grid_only(rng, big=False):
@@ -1246,6 +1443,7 @@ def run(ctx):
                 'bit-identical afterwards, second pass identical), and every spelling of zernike / zernike_noll / zernike_ansi / make_zernike_basis '
                 '(grid=None generator forms evaluated later on two different grids in any order, starting_mode, ansi, radial_cutoff, use_cache, '
                 'D as int/float/0-d array/np.float64, positional vs keyword), each against the definition for the mode the documented ordering names and against the model. '
+                '(E) the radial polynomial as a polynomial: zernike_radial run on the symbolic argument numpy Polynomial([0,1]) (all 121 pairs n <= 20, any request order, with/without one shared cache) against the factorial coefficients (oracle) and the coefficient lists of the model recursion (radialPoly); peval of the model list = radialEval = the code at sampled radii (0, 1, 2^-20, k/256); the Gram matrix of zernike_radial under 32-point Gauss-Legendre quadrature with weight r against delta/(2(n+1)) (oracle) and the exact integral of the model product polynomial (pint01). '
                 'Non-trivial = a mode evaluation on a non-empty grid; distinct by (grid kind, n, m, cutoff, cache, centre present, rim present).')
     ctx.assumptions += ['np.hypot / arctan2 / cos / sin / pow are accurate to a few ulp',
                         'float sqrt in the index maps is tied only on the exhaustively compared range',
@@ -1261,7 +1459,9 @@ def run(ctx):
     check_direct(ctx, hz)
     ctx.extra['time_direct_s'] = round(time.time() - t, 1); t = time.time()
     check_spellings(ctx, hz)
-    ctx.extra['time_spellings_s'] = round(time.time() - t, 1)
+    ctx.extra['time_spellings_s'] = round(time.time() - t, 1); t = time.time()
+    check_polynomials(ctx, hz)
+    ctx.extra['time_polynomials_s'] = round(time.time() - t, 1)
 
 
 def replay(ctx, case):
@@ -1290,6 +1490,11 @@ def replay(ctx, case):
     elif what == 'noll-injective':
         seen = set(hz.noll_to_zernike(i) for i in range(1, case['N'] + 1))
         ok = len(seen) == case['N']
+    elif what in ('poly', 'ortho'):
+        bad = (run_poly if what == 'poly' else run_ortho)(hz, case)[0]
+        for key, what_, _ in bad[:5]:
+            print('  fails:', key, '-', what_)
+        ok = not bad
     elif what == 'direct':
         bad = run_direct(hz, case)[0]
         for key, what_, _ in bad[:5]:
